@@ -8,6 +8,7 @@ package c20
 
 import (
 	"context"
+	"encoding/json"
 	"fmt"
 	"io"
 	"log/slog"
@@ -189,6 +190,15 @@ func idHost(id int) string   { return fmt.Sprintf("h%d.example", id) }
 func idMethod(id int) string { return []string{"GET", "POST", "PUT", "DELETE"}[id%4] }
 func idRaddr(id int) string  { return fmt.Sprintf("10.%d.%d.%d:%d", id>>16&255, id>>8&255, id&255, 1024+id%60000) }
 func idURI(id int) string    { return fmt.Sprintf("/p/%d?id=%d&x=%%20", id, id) }
+
+// idRequestURI is what the client put on the request line: for every third request the absolute form,
+// which differs from r.URL.RequestURI().
+func idRequestURI(id int) string {
+	if id%3 == 1 {
+		return "http://" + idHost(id) + idURI(id)
+	}
+	return idURI(id)
+}
 func idBody(id int) string   { return fmt.Sprintf("body-%d-%s", id, strings.Repeat("z", id%50)) }
 
 // script: what the invocation for id writes
@@ -259,7 +269,7 @@ func (e *env) inner(w http.ResponseWriter, r *http.Request) {
 		e.problem("request %d: remote address %q", id, r.RemoteAddr)
 	case !e.realSrv && cv != id:
 		e.problem("request %d: context value %d", id, cv)
-	case !e.realSrv && r.RequestURI != idURI(id):
+	case !e.realSrv && r.RequestURI != idRequestURI(id):
 		e.problem("request %d: RequestURI %q", id, r.RequestURI)
 	}
 	l, ok := slogutil.LoggerFromContext(r.Context())
@@ -304,6 +314,7 @@ type response struct {
 func mkRequest(id int) *http.Request {
 	req := httptest.NewRequest(idMethod(id), idURI(id), strings.NewReader(idBody(id)))
 	req.Host = idHost(id)
+	req.RequestURI = idRequestURI(id)
 	req.RemoteAddr = idRaddr(id)
 	req.Header.Set("X-Id", strconv.Itoa(id))
 	return req.WithContext(context.WithValue(req.Context(), ctxKey{}, id))
@@ -341,7 +352,11 @@ func verify(e *env, ids []int, resps []response) (what string, checks int) {
 		checks++
 		uri := l.attrs["request_uri"]
 		var id int
-		if _, err := fmt.Sscanf(uri, "/p/%d?", &id); err != nil {
+		at := strings.Index(uri, "/p/")
+		if at < 0 {
+			return fmt.Sprintf("a %q record carries request_uri=%q", l.msg, uri), checks
+		}
+		if _, err := fmt.Sscanf(uri[at:], "/p/%d?", &id); err != nil {
 			return fmt.Sprintf("a %q record carries request_uri=%q", l.msg, uri), checks
 		}
 		p := by[id]
@@ -352,7 +367,7 @@ func verify(e *env, ids []int, resps []response) (what string, checks int) {
 		if e.realSrv {
 			wantR = l.attrs["raddr"]
 		}
-		if l.attrs["host"] != idHost(id) || l.attrs["method"] != idMethod(id) || l.attrs["raddr"] != wantR || (!e.realSrv && uri != idURI(id)) {
+		if l.attrs["host"] != idHost(id) || l.attrs["method"] != idMethod(id) || l.attrs["raddr"] != wantR || (!e.realSrv && uri != idRequestURI(id)) {
 			return fmt.Sprintf("the %q record of request %d carries host=%q method=%q raddr=%q request_uri=%q", l.msg, id, l.attrs["host"], l.attrs["method"], l.attrs["raddr"], uri), checks
 		}
 		switch l.msg {
@@ -399,7 +414,11 @@ func verify(e *env, ids []int, resps []response) (what string, checks int) {
 		e.outer.mu.Lock()
 		for _, l := range e.outer.recs {
 			var id int
-			if _, err := fmt.Sscanf(l.attrs["request_uri"], "/p/%d?", &id); err != nil || l.attrs["host"] != idHost(id) || l.attrs["method"] != idMethod(id) {
+			ou := l.attrs["request_uri"]
+			if i := strings.Index(ou, "/p/"); i > 0 {
+				ou = ou[i:]
+			}
+			if _, err := fmt.Sscanf(ou, "/p/%d?", &id); err != nil || l.attrs["host"] != idHost(id) || l.attrs["method"] != idMethod(id) {
 				what = fmt.Sprintf("outer middleware: a %q record carries request_uri=%q host=%q method=%q", l.msg, l.attrs["request_uri"], l.attrs["host"], l.attrs["method"])
 			}
 			if l.msg == "finished" {
@@ -644,3 +663,109 @@ func TestServer(t *testing.T) {
 
 var _ = gen.PowInt
 var _ = rand.IntN
+
+// ---------------------------------------------------------------- JSON-hybrid base logger
+
+// lockedBuf collects the lines of a JSONHybridHandler.
+type lockedBuf struct {
+	mu sync.Mutex
+	b  []byte
+}
+
+func (l *lockedBuf) Write(p []byte) (int, error) {
+	l.mu.Lock()
+	l.b = append(l.b, p...)
+	l.mu.Unlock()
+	return len(p), nil
+}
+
+// TestHybridBase puts golibs' own JSONHybridHandler under the LogMiddleware, with 0..12 attributes chained on
+// the base logger one at a time (so that its attribute slice has spare capacity for some depths), and holds
+// requests inside the handler at once: every line of a request must carry that request's own four attributes.
+func TestHybridBase(t *testing.T) {
+	r := mon.Start("C20", "hybrid_base")
+	var reqs, lines int64
+	nextID := 5_000_000
+	for depth := 0; depth <= 12; depth++ {
+		for rep := 0; rep < r.Pick(6, 60); rep++ {
+			buf := &lockedBuf{}
+			base := slog.New(slogutil.NewJSONHybridHandler(buf, &slog.HandlerOptions{Level: slog.LevelDebug}))
+			for i := 0; i < depth; i++ {
+				base = base.With(fmt.Sprintf("base%d", i), i)
+			}
+			e := &env{st: &store{}, problems: &store{}}
+			h := httputil.Wrap(http.HandlerFunc(e.inner), httputil.NewLogMiddleware(base, slog.LevelInfo))
+			n := 3 + rep%6
+			ids := make([]int, n)
+			for i := range ids {
+				nextID++
+				ids[i] = nextID
+			}
+			k := 2 + rep%3
+			if k > n {
+				k = n
+			}
+			rng := r.Rand(uint64(depth*1000 + rep))
+			resps := batch(e, h, ids, k, rng.Perm(k))
+			reqs += int64(n)
+			what := ""
+			e.problems.mu.Lock()
+			if len(e.problems.recs) > 0 {
+				what = e.problems.recs[0].msg
+			}
+			e.problems.mu.Unlock()
+			for _, rs := range resps {
+				if what == "" && (rs.code != expectedCode(rs.id) || rs.body != expectedBody(rs.id)) {
+					what = fmt.Sprintf("the client of request %d received %d %q", rs.id, rs.code, rs.body)
+				}
+			}
+			// every line: the message must contain the four attributes of ONE request, consistently
+			for _, ln := range strings.Split(strings.TrimSpace(string(buf.b)), "\n") {
+				if ln == "" || what != "" {
+					continue
+				}
+				lines++
+				var obj struct {
+					Message string `json:"message"`
+				}
+				if err := json.Unmarshal([]byte(ln), &obj); err != nil {
+					what = fmt.Sprintf("line %q is not JSON: %v", ln, err)
+					break
+				}
+				i := strings.Index(obj.Message, "request_uri=")
+				var id int
+				rest := ""
+				if i >= 0 {
+					rest = strings.Trim(strings.Fields(obj.Message[i+len("request_uri="):])[0], "\"")
+					if j := strings.Index(rest, "/p/"); j >= 0 {
+						_, _ = fmt.Sscanf(rest[j:], "/p/%d?", &id)
+					}
+				}
+				if id == 0 {
+					what = fmt.Sprintf("a log line of the middleware has no usable request_uri: %q", obj.Message)
+					break
+				}
+				for _, wantAttr := range []string{"host=" + idHost(id), "method=" + idMethod(id), "raddr=" + idRaddr(id)} {
+					if !strings.Contains(obj.Message, wantAttr) {
+						what = fmt.Sprintf("base logger with %d chained attributes: a line with request_uri of request %d lacks %q: %s", depth, id, wantAttr, obj.Message)
+					}
+				}
+				if strings.Contains(obj.Message, "msg=inner ") && !strings.Contains(obj.Message, fmt.Sprintf(" id=%d ", id)) {
+					what = fmt.Sprintf("base logger with %d chained attributes: the handler of another request logged through the context logger of request %d: %s", depth, id, obj.Message)
+				}
+			}
+			if what != "" {
+				r.Violation(fmt.Sprintf("hybrid-base:%d:%d", depth, rep), what, map[string]any{"depth": depth, "rep": rep})
+				break
+			}
+		}
+	}
+	r.Eval(lines)
+	r.NontrivialN(reqs)
+	r.Count("requests", reqs)
+	r.Count("log_lines_checked", lines)
+	r.Sample(map[string]any{"base_logger": "slogutil.NewJSONHybridHandler + 0..12 single-attribute With calls", "overlap": "2..4 requests held inside the handler at once"})
+	if r.Finish() > 0 {
+		t.Fail()
+	}
+}
